@@ -89,6 +89,9 @@ def make_real(spans, rel, form):
     if form == "nocheck":
         # the documented fast path (two sequences, no duplicate check): the spans are stored as given, repeats included
         return SpanSet([s for s, _ in spans], [e for _, e in spans], force_no_dup_check=True, eq_relation=real_rel(rel))
+    if form == "pairs_flag":
+        # "This parameter is not obeyed when starts contains Iterable of spans": construction de-duplicates all the same
+        return SpanSet(list(spans), force_no_dup_check=True, eq_relation=real_rel(rel))
     if form == "pairs":
         return SpanSet(list(spans), eq_relation=real_rel(rel))
     if form == "gen":
@@ -227,7 +230,7 @@ def run_shard(spec):
     ops, extra, u = operands(spec["tier"], spec["seed"])
     rng = common.rng_for(PROP, spec["seed"], "shard", spec["shard"])
     forms = ["pairs", "two_seq", "gen", "pairs", "two_seq", "gen", "copy:exact", "copy:overlaps", "copy:partof", "copy:includes", "from_set", "from_set",
-             "nocheck", "nocheck"]
+             "nocheck", "nocheck", "pairs_flag"]
     per_mech = {}
     idx = 0
     nconc = 0
